@@ -5,4 +5,9 @@
 (* scanner (MC_Buffer*.cfg).                                                                                *)
 EXTENDS FlexBuffer
 SrcDef == <<97, 0, 98, 10, 99>>
+
+\* refinement: every step of the concrete buffer is a step of the stream abstraction (or leaves it unchanged:
+\* scanning, moving text to the front, growing)
+Abs == INSTANCE FlexStream WITH consumed <- out, pending <- Pending, rest <- src
+Refines == Abs!Spec
 =============================================================================
